@@ -26,6 +26,11 @@ package composite
 
 //@ func parentController.updateParentStatus(pc, parent, status) (res, err)
 //@   requires validPC(pc) && parent != nil
+//@   safety C13
+//@   at ResourceClient.AtomicStatusUpdate(rc, orig, fn) [C11]: orig == parent && rc.APIResource == pc.parentClient.APIResource
+//@   at ResourceClient.AtomicStatusUpdate(rc, orig, fn) [C11]: cur(status) != nil && cur(status)["observedGeneration"] == parent.GetGeneration()
+//@   at ResourceClient.AtomicStatusUpdate(rc, orig, fn) [C11]: status != nil ==> cur(status) == status && (forall k string :: k != "observedGeneration" ==> has(status, k) == old(has(status, k)) && status[k] == old(status[k]))
+//@   ensures [C11] count(ResourceClient.AtomicStatusUpdate) == 1
 
 //@ func parentController.enqueueParentObjectAfter(pc, obj, delay) ()
 //@   requires validPC(pc)
@@ -62,3 +67,35 @@ package composite
 //@   ensures [C13] err != nil ==> resp == nil
 //@   invariant loop 1 [C03]: forall j int :: 0 <= j && j <= rangeindex ==> response.Children[j] == nil || response.Children[j].GetNamespace() != "" || parent.GetNamespace() == ""
 //@   ensures [C03] err == nil && resp != nil ==> (forall j int :: 0 <= j && j < len(resp.Children) ==> resp.Children[j] == nil || resp.Children[j].GetNamespace() != "" || parent.GetNamespace() == "")
+
+//@ func parentController.updateParentStatus$1(obj) (changed)
+//@   requires obj != nil && obj.Object != nil && *status != nil
+//@   safety C13
+//@   om-writes [C11] content
+//@   writes [C11,C17] obj, obj.Object
+//@   let st = *status
+//@   ensures [C11,C01] changed == !deq(old(obj.Object["status"]), st)
+//@   ensures [C11] changed ==> has(obj.Object, "status") && obj.Object["status"] == st
+//@   ensures [C11] forall k string :: k != "status" ==> has(obj.Object, k) == old(has(obj.Object, k)) && obj.Object[k] == old(obj.Object[k])
+//@   ensures [C11,C01] !changed ==> (forall k string :: has(obj.Object, k) == old(has(obj.Object, k)) && obj.Object[k] == old(obj.Object[k]))
+
+//@ func parentController.sync(pc, key) (err)
+//@   requires validPC(pc) && validChildInformers(pc)
+//@   safety C13
+//@   bind call parentController.syncParentObject: spoErr
+//@   at AddAfter(q, k, d) [C12]: called(parentController.syncParentObject) && isTMR(spoErr) && k == key
+//@   ensures [C12] called(parentController.syncParentObject) && !isTMR(spoErr) ==> err == spoErr && !called(AddAfter)
+//@   ensures [C12] called(parentController.syncParentObject) && isTMR(spoErr) ==> err == nil && called(AddAfter)
+
+//@ func parentController.processNextWorkItem(pc) (more)
+//@   requires validPC(pc) && validChildInformers(pc)
+//@   safety C13
+//@   bind call parentController.sync: syncErr
+//@   bind call Get: item, quit
+//@   at AddRateLimited(q, k) [C12]: called(parentController.sync) && syncErr != nil && k == item
+//@   at Forget(q, k) [C12]: called(parentController.sync) && syncErr == nil && k == item
+//@   at parentController.sync(p, k) [C12]: !quit
+//@   ensures [C12] quit ==> !more && !called(parentController.sync) && !called(Done)
+//@   ensures [C12] !quit ==> more && called(Done) && called(parentController.sync)
+//@   ensures [C12] !quit && syncErr != nil ==> called(AddRateLimited) && !called(Forget)
+//@   ensures [C12] !quit && syncErr == nil ==> called(Forget) && !called(AddRateLimited)
